@@ -22,6 +22,191 @@ def AllValid (rs : List Resp) : Prop := ∀ r ∈ rs, valid r.state = true
   | nil => rfl
   | cons e a ih => cases e <;> simp [reads, ih]
 
+/-! ### several terminals on one bus: every terminal sees its single-terminal trace
+
+`runD`/`resume` is the coroutine cut at its reads; `sysRun` interleaves the drivers of any number
+of terminals with any other traffic under any schedule.  The projection of such a run on one
+terminal is its own single-terminal run, so every theorem above holds for each terminal of a bus
+that is shared with other callers. -/
+namespace Bus
+
+theorem runD_fin (target : Nat) (o : Outcome) (rs : List Resp) : runD target (.fin o) rs = ([], o) := by
+  cases rs <;> rfl
+
+/-- the polling state is the `while` loop followed by the rest of the `for` loop -/
+theorem runD_polling (target cur : Nat) (todo : List Nat)
+    (hw : ∀ rs, walk target todo cur rs =
+      ((enter target todo cur).1 ++ (runD target (enter target todo cur).2 rs).1,
+       (runD target (enter target todo cur).2 rs).2))
+    (rs : List Resp) :
+    runD target (.polling cur todo) rs =
+      match poll cur rs with
+      | (evs, .reached rs') => (evs ++ (walk target todo cur rs').1, (walk target todo cur rs').2)
+      | (evs, .stop o) => (evs, o) := by
+  induction rs with
+  | nil => rfl
+  | cons r rs ih =>
+    unfold runD poll resume
+    by_cases hv : valid r.state = true
+    · simp only [hv, Bool.not_true, Bool.false_eq_true, ↓reduceIte]
+      by_cases he : r.err = true
+      · simp [he, runD_fin]
+      · have he' : r.err = false := by simpa using he
+        simp only [he', Bool.false_eq_true, ↓reduceIte]
+        by_cases hc : r.state = cur
+        · simp only [hc, ↓reduceIte]
+          rw [hw rs]
+          simp
+        · simp only [hc, ↓reduceIte]
+          rw [ih]
+          rcases poll cur rs with ⟨evs, e⟩
+          cases e <;> simp
+    · have hv' : valid r.state = false := by simpa using hv
+      simp [hv', runD_fin]
+
+theorem walk_eq (target : Nat) (todo : List Nat) : ∀ (state : Nat) (rs : List Resp),
+    walk target todo state rs =
+      ((enter target todo state).1 ++ (runD target (enter target todo state).2 rs).1,
+       (runD target (enter target todo state).2 rs).2) := by
+  induction todo with
+  | nil => intro state rs; simp [walk, enter, runD_fin]
+  | cons cur todo ih =>
+    intro state rs
+    unfold walk enter
+    by_cases hs : state ≥ target
+    · simp [hs, runD_fin]
+    · simp only [hs, ↓reduceIte]
+      rw [runD_polling target cur todo (ih cur) rs]
+      rcases poll cur rs with ⟨evs, e⟩
+      cases e <;> simp
+
+/-- the small-step form is the model of `to_operational` -/
+theorem runD_start (target : Nat) (rs : List Resp) : runD target .start rs = toOperational target rs := by
+  cases rs with
+  | nil => rfl
+  | cons r rs =>
+    unfold runD toOperational resume
+    by_cases hv : valid r.state = true
+    · simp only [hv, Bool.not_true, Bool.false_eq_true, ↓reduceIte]
+      by_cases he : r.err = true
+      · simp only [he, ↓reduceIte]
+        rw [walk_eq]
+        simp
+      · have he' : r.err = false := by simpa using he
+        simp only [he', Bool.false_eq_true, ↓reduceIte]
+        rw [walk_eq]
+        simp
+    · have hv' : valid r.state = false := by simpa using hv
+      simp [hv', runD_fin]
+
+theorem devStep_idle (d : Dev) (h : d.ds.pending = [] ∨ d.rs = []) : devStep d = ([], d) := by
+  obtain ⟨t, ds, rs⟩ := d
+  cases ds <;> cases rs <;> simp_all [devStep, DS.pending]
+
+theorem devRun_idle (k : Nat) (d : Dev) (h : d.ds.pending = [] ∨ d.rs = []) : devRun k d = ([], d) := by
+  induction k with
+  | zero => rfl
+  | succ k ih => simp [devRun, devStep_idle d h, ih]
+
+/-- a driver that was given at least as many turns as its terminal has answers has run its
+whole single-terminal course -/
+theorem devRun_full (k : Nat) : ∀ (d : Dev), d.rs.length ≤ k →
+    runD d.target d.ds d.rs =
+      ((devRun k d).1 ++ (devRun k d).2.ds.pending, (devRun k d).2.ds.outcome) := by
+  induction k with
+  | zero =>
+    intro d hk
+    obtain ⟨t, ds, rs⟩ := d
+    have : rs = [] := by cases rs <;> simp_all
+    subst this
+    cases ds <;> simp [devRun, runD, DS.pending, DS.outcome]
+  | succ k ih =>
+    intro d hk
+    obtain ⟨t, ds, rs⟩ := d
+    cases rs with
+    | nil =>
+      rw [devRun_idle _ _ (Or.inr rfl)]
+      cases ds <;> simp [runD, DS.pending, DS.outcome]
+    | cons r rs =>
+      cases ds with
+      | fin o =>
+        rw [devRun_idle _ _ (Or.inl rfl)]
+        simp [runD, DS.pending, DS.outcome]
+      | start =>
+        have := ih ⟨t, (resume t .start r).2, rs⟩ (by simpa using hk)
+        simp only [runD, devRun, devStep] at this ⊢
+        rw [this]
+        simp
+      | polling c td =>
+        have := ih ⟨t, (resume t (.polling c td) r).2, rs⟩ (by simpa using hk)
+        simp only [runD, devRun, devStep] at this ⊢
+        rw [this]
+        simp
+
+theorem proj_append (i : Nat) (a b : List (Nat × Ev)) : proj i (a ++ b) = proj i a ++ proj i b := by
+  simp [proj]
+
+theorem proj_tag_self (i : Nat) (evs : List Ev) : proj i (evs.map (fun e => (i, e))) = evs := by
+  induction evs with
+  | nil => rfl
+  | cons e evs ih => simpa [proj] using ih
+
+theorem proj_tag_other (i j : Nat) (h : j ≠ i) (evs : List Ev) : proj i (evs.map (fun e => (j, e))) = [] := by
+  induction evs with
+  | nil => rfl
+  | cons e evs ih => simpa [proj, h] using ih
+
+/-- PROJECTION: under every schedule, with any other terminals and any other traffic, terminal
+`i` sees exactly the run of its own driver for as many turns as the schedule gave it -/
+theorem sys_projection (sched : List Nat) : ∀ (sys : List Dev) (i : Nat) (d : Dev), sys[i]? = some d →
+    proj i (sysRun sys sched).1 = (devRun (sched.count i) d).1 ∧
+    (sysRun sys sched).2[i]? = some (devRun (sched.count i) d).2 := by
+  induction sched with
+  | nil => intro sys i d h; simp [sysRun, devRun, proj, h]
+  | cons j sched ih =>
+    intro sys i d h
+    by_cases hj : j = i
+    · subst hj
+      have hlt : j < sys.length := by
+        rcases List.getElem?_eq_some_iff.1 h with ⟨hl, _⟩; exact hl
+      have h2 : (sys.set j (devStep d).2)[j]? = some (devStep d).2 := by simp [hlt]
+      obtain ⟨i1, i2⟩ := ih (sys.set j (devStep d).2) j (devStep d).2 h2
+      simp only [sysRun, sysStep, h, List.count_cons_self, devRun, proj_append, proj_tag_self]
+      exact ⟨by rw [i1], i2⟩
+    · have hc : (j :: sched).count i = sched.count i := by simp [List.count_cons, hj]
+      rw [hc]
+      cases hsj : sys[j]? with
+      | none =>
+        simp only [sysRun, sysStep, hsj, List.nil_append]
+        exact ih sys i d h
+      | some dj =>
+        have h2 : (sys.set j (devStep dj).2)[i]? = some d := by
+          rw [List.getElem?_set_ne hj]; exact h
+        obtain ⟨i1, i2⟩ := ih (sys.set j (devStep dj).2) i d h2
+        simp only [sysRun, sysStep, hsj, proj_append, proj_tag_other i j hj, List.nil_append]
+        exact ⟨i1, i2⟩
+
+/-- INDEPENDENCE: what terminal `i` sees does not depend on the other terminals (their number,
+targets, answers), on unanswered traffic, or on the order in which the bus served the callers -/
+theorem sys_independent (sys sys' : List Dev) (sched sched' : List Nat) (i : Nat) (d : Dev)
+    (h : sys[i]? = some d) (h' : sys'[i]? = some d) (hc : sched.count i = sched'.count i) :
+    proj i (sysRun sys sched).1 = proj i (sysRun sys' sched').1 := by
+  rw [(sys_projection sched sys i d h).1, (sys_projection sched' sys' i d h').1, hc]
+
+/-- COMPLETENESS: once the bus has served terminal `i`'s driver as often as the terminal has
+answers, terminal `i` has seen exactly the trace of `to_operational` run alone on that terminal,
+and the call ended the same way — all theorems of this file apply to it unchanged -/
+theorem sys_complete (sys : List Dev) (sched : List Nat) (i : Nat) (target : Nat) (rs : List Resp)
+    (h : sys[i]? = some ⟨target, .start, rs⟩) (hc : rs.length ≤ sched.count i) :
+    ∃ d', (sysRun sys sched).2[i]? = some d' ∧
+      toOperational target rs = (proj i (sysRun sys sched).1 ++ d'.ds.pending, d'.ds.outcome) := by
+  obtain ⟨p1, p2⟩ := sys_projection sched sys i _ h
+  refine ⟨_, p2, ?_⟩
+  rw [← runD_start, p1]
+  exact devRun_full (sched.count i) ⟨target, .start, rs⟩ hc
+
+end Bus
+
 /-! ### the poll loop, once and for all -/
 
 inductive PollSpec (cur : Nat) (rs : List Resp) : List Ev × PollEnd → Prop where
@@ -356,5 +541,14 @@ example : (8 : Nat) ∈ targets ∧ start ⟨2, true, 0⟩ ∈ starts ∧
     AllValid [⟨1, false, 0⟩, ⟨2, false, 0⟩, ⟨4, false, 0⟩] := by
   refine ⟨by decide, by decide, ?_⟩
   intro r hr; simp at hr; rcases hr with rfl | rfl | rfl <;> decide
+
+
+/-! non-vacuity of the bus theorems: two terminals and an unanswered prober (index 2) -/
+def exSys : List Dev := [⟨8, .start, [⟨2, false, 0⟩, ⟨4, false, 0⟩, ⟨8, false, 0⟩]⟩,
+                         ⟨4, .start, [⟨1, true, 3⟩, ⟨2, false, 0⟩, ⟨4, false, 0⟩]⟩]
+example : proj 0 (sysRun exSys [2, 0, 1, 2, 1, 0, 0, 1, 2]).1
+    = [.read ⟨2, false, 0⟩, .write 4, .read ⟨4, false, 0⟩, .write 8, .read ⟨8, false, 0⟩] := by decide
+example : proj 1 (sysRun exSys [1, 1, 0, 2, 0, 1, 0]).1
+    = [.read ⟨1, true, 3⟩, .write 17, .write 2, .read ⟨2, false, 0⟩, .write 4, .read ⟨4, false, 0⟩] := by decide
 
 end Ebv.C14
